@@ -20,7 +20,8 @@ type C05ColPlan struct {
 	N         int      `json:"n"`       // base rows
 	NCols     int      `json:"ncols"`   // non-key columns
 	KeyPos    int      `json:"key_pos"` // where the key column sits
-	Mode      string   `json:"mode"`    // sameadd | samecol
+	Mode      string   `json:"mode"`    // sameadd | samecol | remlayout (one branch removes a row, the other renames a column and leaves every cell alone)
+	RemRow    int      `json:"rem_row"` // remlayout: the row removed
 	ExtraB    int      `json:"extra_b"` // sameadd: the branch that adds the column
 	ExtraAt   int      `json:"extra_at"`
 	OtherEdit bool     `json:"other_edit"` // sameadd: the other branch edits a cell of the first base row
@@ -41,10 +42,11 @@ func init() {
 		Rule: "two branches over a keyed base (1-300 rows, key at any position): (sameadd) both add the same 1-3 new rows and one also adds a column with a value in every row - the new rows keep that value whichever branch is listed first; (samecol) both add a column of the same name with per-row cells drawn from {\"\", v, w}: equal cells resolve to the value, different cells (also empty against a value) are reported as a conflict on that column; everything else must come out as in the base; non-trivial = every case",
 		Gen: func(seed uint64, tier string) any {
 			r := NewRand(seed)
-			p := C05ColPlan{N: Pick(r, []int{1, 2, 3, 8, 8, 20, 255, 256, 300}), NCols: r.Range(1, 3), Mode: Pick(r, []string{"sameadd", "samecol"}),
+			p := C05ColPlan{N: Pick(r, []int{1, 2, 3, 8, 8, 20, 255, 256, 300}), NCols: r.Range(1, 3), Mode: Pick(r, []string{"sameadd", "samecol", "remlayout"}),
 				ExtraB: r.Intn(2), OtherEdit: r.Chance(0.5), NewRows: r.Range(1, 3), Swap: r.Chance(0.5),
 				HashBatch: Pick(r, []uint32{0, 1, 2, 7}), Output: Pick(r, []string{"blocks", "rows"}), Workers: Pick(r, []int{1, 4})}
 			p.KeyPos = r.Intn(p.NCols + 1)
+			p.RemRow = r.Intn(p.N)
 			p.ExtraAt, p.AtA, p.AtB = r.Intn(p.NCols+2), r.Intn(p.NCols+2), r.Intn(p.NCols+2)
 			if r.Chance(0.6) {
 				p.AtB = p.AtA
@@ -72,7 +74,7 @@ func execC05Col(t *testing.T, raw json.RawMessage, res *Result) {
 		res.Invalid("plan: %v", err)
 		return
 	}
-	if p.N < 1 || p.N > 1000 || p.NCols < 1 || p.NCols > 6 || p.KeyPos < 0 || p.KeyPos > p.NCols || (p.Mode != "sameadd" && p.Mode != "samecol") ||
+	if p.N < 1 || p.N > 1000 || p.NCols < 1 || p.NCols > 6 || p.KeyPos < 0 || p.KeyPos > p.NCols || (p.Mode != "sameadd" && p.Mode != "samecol" && p.Mode != "remlayout") || p.RemRow < 0 || p.RemRow >= p.N ||
 		p.ExtraB < 0 || p.ExtraB > 1 || p.ExtraAt < 0 || p.ExtraAt > p.NCols+1 || p.AtA < 0 || p.AtA > p.NCols+1 || p.AtB < 0 || p.AtB > p.NCols+1 ||
 		p.NewRows < 0 || p.NewRows > 10 || (p.Output != "blocks" && p.Output != "rows") || p.Workers < 1 || p.Workers > 16 {
 		res.Invalid("plan out of range")
@@ -193,6 +195,42 @@ func execC05Col(t *testing.T, raw json.RawMessage, res *Result) {
 		for id, e := range expected {
 			e["extra"] = "X:" + id
 		}
+	case "remlayout":
+		// branch 0 removes a row; branch 1 renames the first non-key column and leaves every cell where it is, so its
+		// rows are byte for byte the base's. "One removed a row another modified" - the row's cell now sits under
+		// another column name - is a conflict to report, never a silent removal.
+		old := ""
+		for _, c := range cols {
+			if c != "id" {
+				old = c
+				break
+			}
+		}
+		newCol = old + "_renamed"
+		for b := 0; b < 2; b++ {
+			var rs [][]string
+			for i := range rows {
+				if b == 0 && i == p.RemRow {
+					continue
+				}
+				rs = append(rs, append([]string(nil), rows[i]...))
+			}
+			bc := append([]string(nil), cols...)
+			if b == 1 {
+				for j := range bc {
+					if bc[j] == old {
+						bc[j] = newCol
+					}
+				}
+			}
+			br[b] = bt{bc, rs}
+		}
+		for id, e := range expected {
+			e[newCol] = e[old]
+			delete(e, old)
+			_ = id
+		}
+		conflictIDs[fmt.Sprintf("k%04d", p.RemRow)] = true
 	case "samecol":
 		newCol = "note"
 		vals := [][]string{p.ValsA, p.ValsB}
@@ -275,7 +313,7 @@ func execC05Col(t *testing.T, raw json.RawMessage, res *Result) {
 				want = x
 			}
 		}
-		if _, ok := m.UnresolvedCols[uint32(want)]; !ok {
+		if _, ok := m.UnresolvedCols[uint32(want)]; !ok && p.Mode != "remlayout" {
 			res.Violate("conflict-wrong-column", "conflict on key %q does not mark column %q unresolved (unresolved: %v of %v)", id, newCol, m.UnresolvedCols, out.CD.Names)
 			return
 		}
@@ -283,6 +321,10 @@ func execC05Col(t *testing.T, raw json.RawMessage, res *Result) {
 	}
 	for id := range conflictIDs {
 		if !reported[id] {
+			if p.Mode == "remlayout" {
+				res.Violate("silent-pick", "one branch removed the row with key %q, the other renamed a column (the row's cell now sits under %q): no conflict was reported", id, newCol)
+				return
+			}
 			i := 0
 			fmt.Sscanf(id, "k%04d", &i)
 			res.Violate("silent-pick", "both branches add column %q; for key %q one holds %q and the other %q, but no conflict was reported", newCol, id, p.ValsA[i], p.ValsB[i])
@@ -297,11 +339,21 @@ func execC05Col(t *testing.T, raw json.RawMessage, res *Result) {
 		}
 		gotCols[c] = x
 	}
-	if len(gotCols) != len(cols)+1 {
-		res.Violate("columns-wrong", "merged columns %q, expected %q plus %q", out.Cols, cols, newCol)
+	wantCols := append(append([]string(nil), cols...), newCol)
+	if p.Mode == "remlayout" {
+		wantCols = nil
+		for _, c := range cols {
+			if c+"_renamed" == newCol {
+				c = newCol
+			}
+			wantCols = append(wantCols, c)
+		}
+	}
+	if len(gotCols) != len(wantCols) {
+		res.Violate("columns-wrong", "merged columns %q, expected the set %q", out.Cols, wantCols)
 		return
 	}
-	for _, c := range append(append([]string(nil), cols...), newCol) {
+	for _, c := range wantCols {
 		if _, ok := gotCols[c]; !ok {
 			res.Violate("columns-wrong", "merged columns %q lack %q", out.Cols, c)
 			return
@@ -325,7 +377,7 @@ func execC05Col(t *testing.T, raw json.RawMessage, res *Result) {
 			return
 		}
 		for name, x := range gotCols {
-			if conflictIDs[id] && name == newCol {
+			if conflictIDs[id] && (name == newCol || p.Mode == "remlayout") {
 				continue // whatever the accepted resolution put there
 			}
 			if r[x] != e[name] {
@@ -335,7 +387,7 @@ func execC05Col(t *testing.T, raw json.RawMessage, res *Result) {
 		}
 	}
 	for id := range expected {
-		if !seen[id] {
+		if !seen[id] && !(p.Mode == "remlayout" && conflictIDs[id]) {
 			res.Violate("row-missing", "key %q is absent from the merge result", id)
 			return
 		}
